@@ -1,8 +1,267 @@
 package checks
 
 import (
+	"bufio"
+	"encoding/json"
+	"fmt"
+	"os"
+	"path/filepath"
+	"sort"
+	"strings"
+	"sync"
+
+	"verif/mc/explore"
+	"verif/mc/plug"
 	"verif/mc/report"
 	"verif/mc/spec"
 )
 
-func c15MapOrder(c *Ctx, r *report.Run, specs []*spec.Spec) error { return nil }
+func perms(n int, thorough bool) [][]int {
+	id := make([]int, n)
+	for i := range id {
+		id[i] = i
+	}
+	if n <= 4 || (thorough && n <= 5) {
+		var out [][]int
+		var rec func(cur []int, rest []int)
+		rec = func(cur, rest []int) {
+			if len(rest) == 0 {
+				out = append(out, append([]int(nil), cur...))
+				return
+			}
+			for i := range rest {
+				nr := append(append([]int(nil), rest[:i]...), rest[i+1:]...)
+				rec(append(cur, rest[i]), nr)
+			}
+		}
+		rec(nil, id)
+		return out[1:] // without identity
+	}
+	var out [][]int
+	rev := make([]int, n)
+	for i := range rev {
+		rev[i] = n - 1 - i
+	}
+	out = append(out, rev)
+	for r := 1; r < n; r++ {
+		p := make([]int, n)
+		for i := range p {
+			p[i] = (i + r) % n
+		}
+		out = append(out, p)
+	}
+	for i := 0; i+1 < n; i++ {
+		p := append([]int(nil), id...)
+		p[i], p[i+1] = p[i+1], p[i]
+		out = append(out, p)
+	}
+	return out
+}
+
+func permString(p []int) string {
+	s := make([]string, len(p))
+	for i, x := range p {
+		s[i] = fmt.Sprint(x)
+	}
+	return strings.Join(s, ",")
+}
+
+// c15MapOrder owns hash-map iteration order: plugins are rebuilt with every range-over-map site routed
+// through a controller; for every spec and plugin, every executed site is driven through all permutations.
+func c15MapOrder(c *Ctx, r *report.Run, specs []*spec.Spec) error {
+	th, err := plug.TreeHash(plug.Repo())
+	if err != nil {
+		return err
+	}
+	odir := filepath.Join(plug.Home(), "cache", th, "maporder")
+	var ov *explore.MapOrderOverlay
+	unlock, err := plug.Lock(odir + ".lock")
+	if err != nil {
+		return err
+	}
+	if b, err := os.ReadFile(filepath.Join(odir, "sites.json")); err == nil {
+		ov = &explore.MapOrderOverlay{}
+		if json.Unmarshal(b, ov) != nil {
+			ov = nil
+		}
+	}
+	if ov == nil {
+		ov, err = explore.BuildMapOrderOverlay(plug.Repo(), odir)
+		if err != nil {
+			unlock()
+			return HarnessError("map-order overlay: %v", err)
+		}
+	}
+	unlock()
+	bins, err := plug.Build("maporder", "-overlay", ov.OverlayJSON)
+	if err != nil {
+		return HarnessError("building plugins with the map-order overlay: %v", err)
+	}
+	var uncontrolled []string
+	for _, s := range ov.Sites {
+		if !s.Controllable {
+			uncontrolled = append(uncontrolled, s.ID+" ("+s.KeyType+")")
+		}
+	}
+	r.Extra["map_range_sites"] = ov.Sites
+	r.Extra["map_range_sites_uncontrolled"] = uncontrolled
+	r.Extra["go_statements_in_generators"] = ov.GoStmts
+	if len(uncontrolled) > 0 || ov.GoStmts > 0 {
+		r.Exhaustive = false
+		r.CapNote = "some map iteration sites have keys that cannot be canonically ordered, or generator packages spawn goroutines"
+	}
+	type cfg struct{ plugin, param string }
+	cfgs := []cfg{{"protoc-gen-go-http", "generate_mock=true"}, {"protoc-gen-go-client", ""}, {"protoc-gen-ts-client", ""}, {"protoc-gen-ts-server", ""}, {"protoc-gen-openapiv3", ""}}
+	type job struct {
+		s   *spec.Spec
+		cfg cfg
+	}
+	var jobs []job
+	for _, s := range append(append([]*spec.Spec(nil), specs...), mapOrderSpecs()...) {
+		for _, cf := range cfgs {
+			jobs = append(jobs, job{s, cf})
+		}
+	}
+	work, err := os.MkdirTemp(plug.Home(), "maplog-")
+	if err != nil {
+		return err
+	}
+	defer os.RemoveAll(work)
+	executed := map[string]bool{}
+	permRuns := 0
+	Par(len(jobs), c.Workers, func(i int) {
+		j := jobs[i]
+		l := mustLower(j.s)
+		req := l.Request(j.cfg.param, nil)
+		logf := filepath.Join(work, fmt.Sprintf("log%d", i))
+		base := plug.Run(bins.Path(j.cfg.plugin), req, "VERIF_MAPLOG="+logf, "VERIF_MAPORDER=")
+		pk := strings.TrimPrefix(j.cfg.plugin, "protoc-gen-")
+		cellBase := fmt.Sprintf("%s,plugin=%s,param=%s", j.s.Cell, pk, paramKey(j.cfg.param))
+		if !base.Answered() || base.Err() != "" {
+			return
+		}
+		// the controlled build with canonical order must agree with the ordinary build
+		ord := plug.Run(c.Bins.Path(j.cfg.plugin), req)
+		if ord.Answered() && !sameFiles(ord.Files(), base.Files()) {
+			r.Violate(cellBase+"#canonical", "map_order_dependent(canonical_vs_native)", "output of the native build differs from the build iterating maps in sorted order: "+diffFiles(ord.Files(), base.Files()),
+				map[string]any{"spec": j.s, "plugin": j.cfg.plugin})
+		}
+		sizes := map[string]map[int]bool{}
+		if f, err := os.Open(logf); err == nil {
+			sc := bufio.NewScanner(f)
+			for sc.Scan() {
+				var site string
+				var n int
+				if _, err := fmt.Sscanf(sc.Text(), "%s %d", &site, &n); err == nil {
+					if sizes[site] == nil {
+						sizes[site] = map[int]bool{}
+					}
+					sizes[site][n] = true
+				}
+			}
+			f.Close()
+		}
+		var sites []string
+		for s := range sizes {
+			sites = append(sites, s)
+		}
+		sort.Strings(sites)
+		for _, site := range sites {
+			var ns []int
+			for n := range sizes[site] {
+				ns = append(ns, n)
+			}
+			sort.Ints(ns)
+			for _, n := range ns {
+				r.Case(cellBase+",site="+site, fmt.Sprintf("executed(n=%d)", n), n >= 2)
+				if n < 2 {
+					continue
+				}
+				for _, p := range perms(n, c.Thorough) {
+					res := plug.Run(bins.Path(j.cfg.plugin), req, "VERIF_MAPORDER="+site+"="+permString(p))
+					cell := fmt.Sprintf("%s,site=%s#perm(%s)", cellBase, site, permString(p))
+					if !res.Answered() || !sameFiles(res.Files(), base.Files()) {
+						r.Violate(cell, "map_order_dependent("+site+")", diffFiles(base.Files(), res.Files()),
+							map[string]any{"spec": j.s, "plugin": j.cfg.plugin, "param": j.cfg.param, "site": site, "perm": p})
+						r.Case(cellBase+",site="+site, "order_dependent", true)
+					} else {
+						r.Case(cellBase+",site="+site, "order_independent", true)
+					}
+				}
+			}
+		}
+		func() {
+			r.Sample(map[string]any{"cell": cellBase, "executed_sites": sizes})
+		}()
+		_ = permRuns
+		for _, s := range sites {
+			executedMu.Lock()
+			executed[s] = true
+			executedMu.Unlock()
+		}
+	})
+	var ex []string
+	for s := range executed {
+		ex = append(ex, s)
+	}
+	sort.Strings(ex)
+	r.Extra["map_range_sites_executed"] = ex
+	return nil
+}
+
+var executedMu sync.Mutex
+
+func sameFiles(a, b map[string]string) bool {
+	if len(a) != len(b) {
+		return false
+	}
+	for k, v := range a {
+		if b[k] != v {
+			return false
+		}
+	}
+	return true
+}
+
+func diffFiles(a, b map[string]string) string {
+	var names []string
+	for n := range a {
+		names = append(names, n)
+	}
+	sort.Strings(names)
+	for _, n := range names {
+		if g, ok := b[n]; !ok {
+			return n + ": missing"
+		} else if g != a[n] {
+			return n + ": " + firstDiff(a[n], g)
+		}
+	}
+	return fmt.Sprintf("file sets differ: %d vs %d", len(a), len(b))
+}
+
+// mapOrderSpecs adds schemas that make the map-iteration sites execute with several keys.
+func mapOrderSpecs() []*spec.Spec {
+	hs := func(names ...string) []*spec.Header {
+		var out []*spec.Header
+		for _, n := range names {
+			out = append(out, &spec.Header{Name: n, Type: "string", Required: true})
+		}
+		return out
+	}
+	f := &spec.File{
+		Enums: []*spec.Enum{spec.E("Zeta", "ZETA_UNSPECIFIED", "ZETA_A"), spec.E("Alpha", "ALPHA_UNSPECIFIED", "ALPHA_A"), spec.E("Mid", "MID_UNSPECIFIED", "MID_A"), spec.E("Beta", "BETA_UNSPECIFIED", "BETA_B")},
+		Messages: []*spec.Message{
+			spec.M("Req", spec.F("name", "string"), spec.En("z", "Zeta"), spec.En("a", "Alpha"), spec.En("m", "Mid"), spec.En("b", "Beta")),
+			spec.M("Resp", spec.F("name", "string"), spec.En("z", "Zeta").Rep(), spec.En("a", "Alpha").Map(), spec.En("m", "Mid").Opt()),
+		},
+		Services: []*spec.Service{
+			spec.Svc("OrderService", "/o",
+				spec.RPC("Do", "Req", "Resp", "POST", "/do").H(hs("X-Zulu", "X-Alpha", "Authorization")...),
+				spec.RPC("Other", "Req", "Resp", "POST", "/other").H(hs("X-Bravo", "X-Mike")...),
+			).H(hs("X-Yankee", "X-Charlie", "X-Alpha")...),
+		},
+	}
+	s := spec.One("mo_headers_enums", f)
+	s.Cell = "maporder/unit=headers_and_enums"
+	return []*spec.Spec{s}
+}
